@@ -309,4 +309,28 @@ PROPS['C18'] = {
     'design_ref': 'DESIGN.md section 5 C18',
 }
 
+PROPS['C10'] = {
+    'modules': FS_MODULES + ['contracts.demostorage', 'contracts.conflict'],
+    'lemmas': [],
+    'level': 'proof',
+    'bounded': [
+        {'func': 'ZODB.ConflictResolution:<resolution-through-connections>',
+         'bound': 'file and demo storage: two concurrent writers on a resolvable counter (arguments recorded), resolver '
+                  'raising, class without resolver, objects holding a strong and a weak reference to one target in both '
+                  'orders; FileStorage: undoMultiple of two of three transactions on one resolvable object, both orders'},
+    ],
+    'text': 'tryToResolveConflict proved as a dataflow over uninterpreted pickling functions, for every path: the '
+            'result is transform(dump(meta(new), resolve_of_the_class(state(loadSerial(oid, oldSerial)), '
+            'state(committedData or loadSerial(oid, committedSerial)), state2(untransform(new))))) - the ORDER and '
+            'origin of the three states is what is pinned; every other path (no resolver, unimportable class, resolver '
+            'or loader raising) ends in ConflictError(oid, serials=(committed, old)); PersistentReference proved for all '
+            'ten reference spellings of serialize.py (oid, weak flag, database name, data preserved, BadClass replaced '
+            'by its (module, name) pair); persistent_load proved to hand out one reference object per SPELLING; the '
+            'call sites FileStorage.store and DemoStorage.store proved to pass (oid, committed serial, caller serial, '
+            'data) and to report the oid as resolved.',
+    'note': 'Assumes A-PICKLE and A-RESOLVER (zodbpickle and the class code are uninterpreted). Connection.tpc_vote '
+            '(ghostifying resolved objects) and the undo call site are covered by the bounded harness / C06.',
+    'design_ref': 'DESIGN.md section 5 C10',
+}
+
 NOT_YET = {}
